@@ -23,7 +23,7 @@ RULE = (
 ASSUMPTIONS = ["the capture helper and the uberjob call are on one source line (same f_lineno)", "depth limit read from uberjob._util.traceback.MAX_TRACEBACK_DEPTH"]
 
 MODNAMES = ["gen_builder", "uberjob_pipelines", "uberjobx.build", "my.uberjob.jobs", "__main__"]
-KINDS = ["unpack_nested_gather", "call_in_genexpr", "nested_callerror", "src_read_shared", "call", "gather_explicit", "gather_implicit", "unpack", "reg_write", "reg_readback", "src_read", "src_noreg", "mtime_stored", "mtime_source", "mtime_unpack_item",
+KINDS = ["unpack_nested_gather", "call_in_genexpr", "nested_callerror", "src_read_shared", "call", "gather_explicit", "gather_implicit", "unpack", "reg_write", "reg_readback", "src_read", "src_noreg", "mtime_stored", "mtime_source", "mtime_unpack_item", "call_exit_chain",
          "gather_nested_set", "gather_nested_dictkey", "gather_nested_implicit", "gather_nested_deep"]
 
 
@@ -73,6 +73,9 @@ CREATE = {
     "src_noreg": "here('X'); s = registry.source(plan, K.Good()); K.out = s; K.use_registry = False",
     "mtime_stored": "here('X'); x = plan.call(K.ok)\n{ind}registry.add(x, K.BadMtime()); K.out = None",
     "mtime_source": "here('X'); s = registry.source(plan, K.BadMtime())\n{ind}y = plan.call(K.ident, s); K.out = y",
+    # the failing call is the ONLY dependent of a call that succeeded, and what it raises is not an Exception (sys.exit() inside a call): the
+    # error still names the call that failed, created on this line
+    "call_exit_chain": "x = plan.call(K.ok)\n{ind}w = plan.call(K.ident, x)\n{ind}here('X'); node = plan.call(K.boom_exit, w); K.out = node; K.use_registry = False",
     # the examined node is an ITEM of an unpack (one of the getitem calls it creates): its line is the unpack line
     "mtime_unpack_item": "a = plan.call(K.mk2)\n{ind}here('X'); u = plan.unpack(a, 2)\n{ind}registry.add(u[1], K.BadMtime()); K.out = None",
 }
@@ -217,6 +220,10 @@ def run_case(desc):
             raise Boom("boom")
 
         @staticmethod
+        def boom_exit(x):
+            raise SystemExit(f"giving up on {x}")
+
+        @staticmethod
         def boom_callerror():
             inner = uberjob.Plan()
             c = inner.call(K.boom)
@@ -343,7 +350,7 @@ def run_case(desc):
             sf = sf.outer
         expected_fn = {"unpack_nested_gather": "gather_set", "call_in_genexpr": "boom", "nested_callerror": "boom_callerror", "src_read_shared": "read", "gather_nested_set": "gather_set", "gather_nested_dictkey": "gather_dict", "gather_nested_implicit": "gather_set", "gather_nested_deep": "gather_set",
                        "call": "boom", "gather_explicit": "gather_set", "gather_implicit": "gather_set", "unpack": "unpack", "reg_write": "write",
-                       "reg_readback": "read", "src_read": "read", "src_noreg": "source", "mtime_stored": "ok", "mtime_source": "source", "mtime_unpack_item": "getitem"}[desc["kind"]]
+                       "reg_readback": "read", "src_read": "read", "src_noreg": "source", "mtime_stored": "ok", "mtime_source": "source", "mtime_unpack_item": "getitem", "call_exit_chain": "boom_exit"}[desc["kind"]]
         if getattr(call.fn, "__name__", None) != expected_fn:
             bad = f"CallError.call is a call to {getattr(call.fn, '__name__', call.fn)!r}, expected the failing {expected_fn!r} call"
         elif not same_frames(got, want):
@@ -359,7 +366,7 @@ def run_case(desc):
                 bad = f"rendered message lists {lines[1:]} expected {exp_lines}"
             elif not lines[0].startswith("An exception was raised in a symbolic call to "):
                 bad = f"unexpected first line {lines[0]!r}"
-            elif exc.__cause__ is None or type(exc.__cause__).__name__ not in ("Boom", "TypeError", "ValueError", "NotTransformedError", "CallError"):
+            elif exc.__cause__ is None or type(exc.__cause__).__name__ not in ("Boom", "TypeError", "ValueError", "NotTransformedError", "CallError", "SystemExit"):
                 bad = f"unexpected cause {exc.__cause__!r}"
     depth_total = len(chain)
     rel = "shallower" if depth_total < LIMIT + 1 else ("equal" if depth_total == LIMIT + 1 else "deeper")
